@@ -3,6 +3,7 @@
 package asm
 
 import (
+	"github.com/llir/llvm/ir"
 	"github.com/llir/llvm/ir/metadata"
 )
 
@@ -77,4 +78,134 @@ func VfC17_ParseMetadata() {
 	vfAssert("C17.parse.attachment-identity", vfAnd(len(att) == 1, att[0].Node == metadata.MDNode(nb)))
 	out := m.String()
 	vfObserveStr("out", out)
+}
+
+// hC17Kinds: one minimal, well-typed spelling of each of the 28 specialised
+// node kinds (each accepted by the unchanged parser, each a print fixpoint).
+// !6 is a DIGlobalVariable, !8 an empty tuple, !9 a DIFile in the carrier.
+var hC17Kinds = [...]struct {
+	text, prefix string
+}{
+	{`!DIBasicType(name: "int", size: 32, encoding: DW_ATE_signed)`, "!DIBasicType("},
+	{`!DICommonBlock(scope: !8, declaration: null, name: "a")`, "!DICommonBlock("},
+	{`distinct !DICompileUnit(language: DW_LANG_C99, file: !9, producer: "p", isOptimized: false, runtimeVersion: 0, emissionKind: FullDebug)`, "distinct !DICompileUnit("},
+	{`!DICompositeType(tag: DW_TAG_structure_type, name: "s", size: 32, elements: !8)`, "!DICompositeType("},
+	{`!DIDerivedType(tag: DW_TAG_pointer_type, baseType: !8, size: 64)`, "!DIDerivedType("},
+	{`!DIEnumerator(name: "e", value: 1)`, "!DIEnumerator("},
+	{`!DIExpression(DW_OP_deref)`, "!DIExpression("},
+	{`!DIFile(filename: "b.c", directory: "/x")`, "!DIFile("},
+	{`distinct !DIGlobalVariable(name: "g", scope: !8, file: !9, line: 1, type: !8, isLocal: false, isDefinition: true)`, "distinct !DIGlobalVariable("},
+	{`!DIGlobalVariableExpression(var: !6, expr: !DIExpression())`, "!DIGlobalVariableExpression("},
+	{`!DIImportedEntity(tag: DW_TAG_imported_module, scope: !8, entity: !8, line: 1)`, "!DIImportedEntity("},
+	{`!DILabel(scope: !8, name: "l", file: !9, line: 1)`, "!DILabel("},
+	{`distinct !DILexicalBlock(scope: !8, file: !9, line: 1, column: 1)`, "distinct !DILexicalBlock("},
+	{`!DILexicalBlockFile(scope: !8, file: !9, discriminator: 0)`, "!DILexicalBlockFile("},
+	{`!DILocalVariable(name: "x", scope: !8, file: !9, line: 1, type: !8)`, "!DILocalVariable("},
+	{`!DILocation(line: 1, column: 1, scope: !8)`, "!DILocation("},
+	{`!DIMacro(type: DW_MACINFO_define, line: 1, name: "M", value: "1")`, "!DIMacro("},
+	{`!DIMacroFile(line: 0, file: !9, nodes: !8)`, "!DIMacroFile("},
+	{`!DIModule(scope: null, name: "m")`, "!DIModule("},
+	{`!DINamespace(name: "n", scope: null)`, "!DINamespace("},
+	{`!DIObjCProperty(name: "p", file: !9, line: 1, type: !8)`, "!DIObjCProperty("},
+	{`!DIStringType(name: "s", size: 32)`, "!DIStringType("},
+	{`distinct !DISubprogram(name: "f", scope: !9, file: !9, line: 1, type: !8, spFlags: DISPFlagDefinition, retainedNodes: !8)`, "distinct !DISubprogram("},
+	{`!DISubrange(count: 3)`, "!DISubrange("},
+	{`!DISubroutineType(types: !8)`, "!DISubroutineType("},
+	{`!DITemplateTypeParameter(name: "T", type: !8)`, "!DITemplateTypeParameter("},
+	{`!DITemplateValueParameter(name: "V", type: !8, value: i32 1)`, "!DITemplateValueParameter("},
+	{`!GenericDINode(tag: DW_TAG_structure_type, header: "h", operands: {!8})`, "!GenericDINode("},
+}
+
+func hC17Def(m *ir.Module, id int64) metadata.Definition {
+	var r metadata.Definition
+	for _, d := range m.MetadataDefs {
+		if d.ID() == id {
+			r = d
+		}
+	}
+	return r
+}
+
+// hC17KindOK: the node with the given ID is of the expected kind (and
+// distinctness), the tuple !7 and the named metadata refer to that very node,
+// and the whole graph is closed.
+func hC17KindOK(m *ir.Module, id int64, prefix string) bool {
+	node := hC17Def(m, id)
+	tup, _ := hC17Def(m, 7).(*metadata.Tuple)
+	if node == nil || tup == nil || len(tup.Fields) != 1 || len(m.NamedMetadataDefs) != 1 {
+		return false
+	}
+	ll := node.LLString()
+	ok := len(ll) >= len(prefix)
+	if ok {
+		ok = ll[:len(prefix)] == prefix
+	}
+	ok = vfAnd(ok, tup.Fields[0] == metadata.Field(node))
+	for _, nd := range m.NamedMetadataDefs {
+		ok = vfAnd(ok, vfAnd(len(nd.Nodes) == 1, nd.Nodes[0] == metadata.Node(node)))
+	}
+	closed, _ := hClosed(m)
+	return vfAnd(ok, closed)
+}
+
+// VfC17_Kinds: each specialised node kind with a symbolic ID in a small
+// reference graph: parsed (identity of references, kind and distinctness
+// kept, graph closed), printed and parsed again (same), then all IDs cleared
+// and reassigned by AssignMetadataIDs (smallest unused numbers in list order),
+// printed and parsed a third time (references follow the new numbers).
+//
+//vf:unwind 2000
+//vf:steps 400000000
+//vf:shards 14
+func VfC17_Kinds() {
+	k := vfChoice("kind", len(hC17Kinds))
+	d := vfString("id", 1)
+	vfAssume(vfAnd(d[0] >= '0', d[0] <= '5'))
+	id := int64(d[0] - '0')
+	src := "!nm = !{!" + d + "}\n!" + d + " = " + hC17Kinds[k].text + "\n" +
+		"!6 = distinct !DIGlobalVariable(name: \"gg\", scope: !8, file: !9, line: 2, type: !8, isLocal: true, isDefinition: true)\n" +
+		"!7 = !{!" + d + "}\n!8 = !{}\n!9 = !DIFile(filename: \"a.c\", directory: \"/\")\n"
+	m, err := ParseString("t.ll", src)
+	vfReach("C17.kinds")
+	vfObserveStr("src", src)
+	vfAssert("C17.kinds.accepted", err == nil)
+	if err != nil {
+		return
+	}
+	vfAssert("C17.kinds.five-defs", len(m.MetadataDefs) == 5)
+	vfAssert("C17.kinds.parsed", hC17KindOK(m, id, hC17Kinds[k].prefix))
+	y := m.String()
+	m2, err2 := ParseString("t.ll", y)
+	vfAssert("C17.kinds.print-accepted", err2 == nil)
+	if err2 != nil {
+		return
+	}
+	vfAssert("C17.kinds.print-fixpoint", m2.String() == y)
+	vfAssert("C17.kinds.reparsed", hC17KindOK(m2, id, hC17Kinds[k].prefix))
+	// renumber from scratch: the node is first in the list of definitions
+	// (smallest ID), so it becomes !0 and the carrier nodes !1..!4
+	for _, def := range m2.MetadataDefs {
+		def.SetID(-1)
+	}
+	vfAssert("C17.kinds.assign-accepted", m2.AssignMetadataIDs() == nil)
+	for i, def := range m2.MetadataDefs {
+		vfAssert("C17.kinds.assign-smallest-unused", def.ID() == int64(i))
+	}
+	y3 := m2.String()
+	vfObserveStr("renumbered", y3)
+	m3, err3 := ParseString("t.ll", y3)
+	vfAssert("C17.kinds.renumbered-accepted", err3 == nil)
+	if err3 != nil {
+		return
+	}
+	node := hC17Def(m3, 0)
+	tup, isTup := hC17Def(m3, 2).(*metadata.Tuple)
+	vfAssert("C17.kinds.renumbered-reference", vfAnd(vfAnd(node != nil, isTup), len(m3.MetadataDefs) == 5))
+	if node != nil {
+		if isTup {
+			if len(tup.Fields) == 1 {
+				vfAssert("C17.kinds.renumbered-reference", tup.Fields[0] == metadata.Field(node))
+			}
+		}
+	}
 }
